@@ -341,12 +341,11 @@ func runUDP(e *core.Env) {
 		return
 	}
 	vtime.Freeze()
-	n := e.N(3, 40)
+	n := e.N(12, 150)
 	core.Parallel(e, "udp", n, 1, func(i int) {
 		rec.Begin("udp", i, "")
-		if !core.Watchdog(4*time.Minute, func() { udpBatchCase(e, i) }) {
-			rec.Inconclusive("watchdog")
-		}
+		// no core.Watchdog here: its timer would run on the virtual clock. Every wait below is bounded in real time (poll).
+		udpBatchCase(e, i)
 	})
 }
 
